@@ -20,48 +20,797 @@ structure Sync (b : B) : Prop where
   ctrs : ∀ c ∈ b.conns, (c.counters.map (·.ssid)).Nodup ∧ ∀ ctr ∈ c.counters, ctr.count = 1
   count : b.trie.count = b.trie.root.abs.length
 
+/-! ### helper lemmas: connections -/
+
+theorem conn?_mem {b : B} {n : String} {c : Conn} (h : b.conn? n = some c) : c ∈ b.conns :=
+  List.mem_of_find?_eq_some h
+
+theorem conn?_name {b : B} {n : String} {c : Conn} (h : b.conn? n = some c) : c.name = n := by
+  have := List.find?_some h
+  simpa using this
+
+theorem eq_of_name_eq : ∀ {l : List Conn}, (l.map (·.name)).Nodup → ∀ {c₁ c₂ : Conn},
+    c₁ ∈ l → c₂ ∈ l → c₁.name = c₂.name → c₁ = c₂
+  | [], _, _, _, h, _, _ => by cases h
+  | x :: xs, hnd, c₁, c₂, h₁, h₂, hn => by
+      simp only [List.map_cons, List.nodup_cons, List.mem_map, not_exists, not_and] at hnd
+      rcases List.mem_cons.1 h₁ with rfl | h₁'
+      · rcases List.mem_cons.1 h₂ with rfl | h₂'
+        · rfl
+        · exact absurd hn.symm (hnd.1 _ h₂')
+      · rcases List.mem_cons.1 h₂ with rfl | h₂'
+        · exact absurd hn (hnd.1 _ h₁')
+        · exact eq_of_name_eq hnd.2 h₁' h₂' hn
+
+theorem conn?_of_mem {b : B} (hnd : (b.conns.map (·.name)).Nodup) {c : Conn} (hc : c ∈ b.conns) :
+    b.conn? c.name = some c := by
+  unfold B.conn?
+  cases hf : b.conns.find? (·.name == c.name) with
+  | none =>
+      rw [List.find?_eq_none] at hf
+      exact absurd (by simp) (hf c hc)
+  | some c' =>
+      have h1 := List.mem_of_find?_eq_some hf
+      have h2 : c'.name = c.name := by simpa using List.find?_some hf
+      rw [eq_of_name_eq hnd h1 hc h2]
+
+theorem mem_setConn {b : B} {c x : Conn} :
+    x ∈ (b.setConn c).conns ↔ (x = c ∧ ∃ y ∈ b.conns, y.name = c.name) ∨ (x ∈ b.conns ∧ x.name ≠ c.name) := by
+  simp only [B.setConn, List.mem_map]
+  constructor
+  · rintro ⟨y, hy, rfl⟩
+    by_cases hyn : y.name = c.name
+    · left; simp [hyn]; exact ⟨y, hy, hyn⟩
+    · right; simp [hyn]; exact hy
+  · rintro (⟨rfl, y, hy, hyn⟩ | ⟨hx, hxn⟩)
+    · exact ⟨y, hy, by simp [hyn]⟩
+    · exact ⟨x, hx, by simp [hxn]⟩
+
+theorem setConn_names (b : B) (c : Conn) :
+    (b.setConn c).conns.map (·.name) = b.conns.map (·.name) := by
+  simp only [B.setConn, List.map_map]
+  apply List.map_congr_left
+  intro x _
+  by_cases hx : x.name = c.name <;> simp [hx]
+
+theorem setConn_trie (b : B) (c : Conn) : (b.setConn c).trie = b.trie := rfl
+
+theorem Sync.self_pairs {b : B} (h : Sync b) {c : Conn} (hc : c ∈ b.conns) (p : Path) :
+    (p, c.key) ∈ b.trie.root.abs ↔ c.alive = true ∧ hasCounter c p := by
+  rw [h.pairs]
+  constructor
+  · rintro ⟨c', hc', ha, hk, hp⟩
+    have : c' = c := eq_of_name_eq h.names hc' hc (h.keys _ hc' _ hc hk)
+    subst this; exact ⟨ha, hp⟩
+  · rintro ⟨ha, hp⟩; exact ⟨c, hc, ha, rfl, hp⟩
+
+/-- replacing the stored connection `c₀` by `c'` (same name, same key) together with a trie
+whose pairs under that key are exactly the counters of `c'` -/
+theorem sync_update {b b' : B} {c₀ c' : Conn} (h : Sync b) (hc₀ : c₀ ∈ b.conns)
+    (hn : c'.name = c₀.name) (hk : c'.key = c₀.key)
+    (hconns : b'.conns = (b.setConn c').conns)
+    (hwf : b'.trie.root.wf) (hcount : b'.trie.count = b'.trie.root.abs.length)
+    (hother : ∀ p k, k ≠ c₀.key → ((p, k) ∈ b'.trie.root.abs ↔ (p, k) ∈ b.trie.root.abs))
+    (hself : ∀ p, (p, c₀.key) ∈ b'.trie.root.abs ↔ c'.alive = true ∧ hasCounter c' p)
+    (hdead : c'.alive = false → c'.counters = [])
+    (hctrs : (c'.counters.map (·.ssid)).Nodup ∧ ∀ ctr ∈ c'.counters, ctr.count = 1) : Sync b' := by
+  have hmem : ∀ x, x ∈ b'.conns ↔ x = c' ∨ (x ∈ b.conns ∧ x.name ≠ c₀.name) := by
+    intro x
+    rw [hconns, mem_setConn, hn]
+    constructor
+    · rintro (⟨hx, _⟩ | hx)
+      · exact Or.inl hx
+      · exact Or.inr hx
+    · rintro (hx | hx)
+      · exact Or.inl ⟨hx, c₀, hc₀, rfl⟩
+      · exact Or.inr hx
+  refine ⟨hwf, ?_, ?_, ?_, ?_, ?_, hcount⟩
+  · rw [hconns, setConn_names]; exact h.names
+  · intro c₁ h₁ c₂ h₂ hkk
+    rcases (hmem _).1 h₁ with rfl | ⟨h₁, hn₁⟩ <;> rcases (hmem _).1 h₂ with rfl | ⟨h₂, hn₂⟩
+    · rfl
+    · rw [hn]; exact (h.keys _ h₂ _ hc₀ (by rw [← hkk, hk])).symm
+    · rw [hn]; exact h.keys _ h₁ _ hc₀ (by rw [hkk, hk])
+    · exact h.keys _ h₁ _ h₂ hkk
+  · intro p k
+    by_cases hkk : k = c₀.key
+    · subst hkk
+      rw [hself]
+      constructor
+      · rintro ⟨ha, hp⟩
+        exact ⟨c', (hmem _).2 (Or.inl rfl), ha, hk, hp⟩
+      · rintro ⟨c, hc, ha, hck, hp⟩
+        rcases (hmem _).1 hc with rfl | ⟨hc, hcn⟩
+        · exact ⟨ha, hp⟩
+        · exact absurd (h.keys _ hc _ hc₀ hck) hcn
+    · rw [hother p k hkk, h.pairs]
+      constructor
+      · rintro ⟨c, hc, ha, hck, hp⟩
+        refine ⟨c, (hmem _).2 (Or.inr ⟨hc, ?_⟩), ha, hck, hp⟩
+        intro hcn
+        have := eq_of_name_eq h.names hc hc₀ hcn
+        subst this; exact hkk hck.symm
+      · rintro ⟨c, hc, ha, hck, hp⟩
+        rcases (hmem _).1 hc with rfl | ⟨hc, hcn⟩
+        · exact absurd (hck.symm.trans hk) hkk
+        · exact ⟨c, hc, ha, hck, hp⟩
+  · intro c hc hd
+    rcases (hmem _).1 hc with rfl | ⟨hc, _⟩
+    · exact hdead hd
+    · exact h.dead c hc hd
+  · intro c hc
+    rcases (hmem _).1 hc with rfl | ⟨hc, _⟩
+    · exact hctrs
+    · exact h.ctrs c hc
+
+/-! ### helper lemmas: counters -/
+
+theorem any_ssid_iff (c : Conn) (ssid : Path) :
+    c.counters.any (·.ssid == ssid) = true ↔ hasCounter c ssid := by
+  simp [List.any_eq_true, hasCounter]
+
+theorem dec_spec (cs : List Counter) (ssid : Path) (h1 : ∀ ctr ∈ cs, ctr.count = 1) :
+    dec cs ssid = (cs.filter (·.ssid != ssid), cs.any (·.ssid == ssid)) := by
+  unfold dec
+  cases hf : cs.find? (·.ssid == ssid) with
+  | none =>
+      rw [List.find?_eq_none] at hf
+      have hany : cs.any (·.ssid == ssid) = false := List.any_eq_false.2 hf
+      have hfil : cs.filter (·.ssid != ssid) = cs :=
+        List.filter_eq_self.2 (by intro a ha; have := hf a ha; simpa using this)
+      simp [hany, hfil]
+  | some c =>
+      have hm := List.mem_of_find?_eq_some hf
+      have hp := List.find?_some hf
+      have hany : cs.any (·.ssid == ssid) = true := List.any_eq_true.2 ⟨c, hm, hp⟩
+      simp [h1 c hm, hany]
+
+theorem hasCounter_filter (c : Conn) (ssid p : Path) :
+    hasCounter { c with counters := c.counters.filter (·.ssid != ssid) } p ↔ p ≠ ssid ∧ hasCounter c p := by
+  simp only [hasCounter, List.mem_filter, bne_iff_ne, ne_eq]
+  constructor
+  · rintro ⟨ctr, ⟨hm, hne⟩, rfl⟩
+    exact ⟨hne, ctr, hm, rfl⟩
+  · rintro ⟨hne, ctr, hm, rfl⟩
+    exact ⟨ctr, ⟨hm, hne⟩, rfl⟩
+
+theorem hasCounter_append (c : Conn) (ssid p : Path) (ch : Bytes) (n : Nat) :
+    hasCounter { c with counters := c.counters ++ [⟨ssid, ch, n⟩] } p ↔ hasCounter c p ∨ p = ssid := by
+  simp only [hasCounter, List.mem_append, List.mem_singleton]
+  constructor
+  · rintro ⟨ctr, hm | rfl, rfl⟩
+    · exact Or.inl ⟨ctr, hm, rfl⟩
+    · exact Or.inr rfl
+  · rintro (⟨ctr, hm, rfl⟩ | rfl)
+    · exact ⟨ctr, Or.inl hm, rfl⟩
+    · exact ⟨_, Or.inr rfl, rfl⟩
+
+theorem matchesE_self : ∀ p : Path, matchesE p p = true
+  | [] => rfl
+  | a :: p => by simp [matchesE, matchesE_self p]
+
+theorem matchesM_self : ∀ p : Path, matchesM p p = true
+  | [] => rfl
+  | a :: p => by simp [matchesM, matchesM_self p]
+
+/-- a filter matches itself as a channel, in both modes -/
+theorem matches_self (m : Mode) (p : Path) : matchesMode m p p = true := by
+  cases m
+  · exact matchesE_self p
+  · exact matchesM_self p
+
+/-! ### subscribeConn / unsubscribeConn -/
+
+theorem subscribeConn_eq (b : B) (c : Conn) (ssid : Path) (channel : Bytes) :
+    subscribeConn b c ssid channel =
+      if c.counters.any (·.ssid == ssid) then (b, [])
+      else
+        ({ (b.setConn { c with counters := c.counters ++ [⟨ssid, channel, 1⟩] }) with
+            trie := b.trie.subscribe ssid c.key },
+         notify { (b.setConn { c with counters := c.counters ++ [⟨ssid, channel, 1⟩] }) with
+            trie := b.trie.subscribe ssid c.key } "subscribe"
+            { c with counters := c.counters ++ [⟨ssid, channel, 1⟩] } ssid channel) := by
+  unfold subscribeConn incOnce
+  cases hany : c.counters.any (·.ssid == ssid) <;> simp
+
+theorem unsubscribeConn_eq (b : B) (c : Conn) (ssid : Path) (channel : Bytes)
+    (h1 : ∀ ctr ∈ c.counters, ctr.count = 1) :
+    unsubscribeConn b c ssid channel =
+      if c.counters.any (·.ssid == ssid) then
+        ({ (b.setConn { c with counters := c.counters.filter (·.ssid != ssid) }) with
+            trie := if (b.trie.root.lookup b.mode ssid).contains c.key then b.trie.unsubscribe ssid c.key else b.trie },
+         notify { (b.setConn { c with counters := c.counters.filter (·.ssid != ssid) }) with
+            trie := if (b.trie.root.lookup b.mode ssid).contains c.key then b.trie.unsubscribe ssid c.key else b.trie }
+            "unsubscribe" { c with counters := c.counters.filter (·.ssid != ssid) } ssid channel)
+      else (b.setConn { c with counters := c.counters.filter (·.ssid != ssid) }, []) := by
+  unfold unsubscribeConn
+  rw [dec_spec _ _ h1]
+  cases hany : c.counters.any (·.ssid == ssid) <;> simp
+
+theorem sync_subscribeConn {b : B} {c : Conn} (h : Sync b) (hc : c ∈ b.conns) (ha : c.alive = true)
+    (ssid : Path) (channel : Bytes) : Sync (subscribeConn b c ssid channel).1 := by
+  rw [subscribeConn_eq]
+  by_cases hany : c.counters.any (·.ssid == ssid) = true
+  · simp only [hany, if_true]; exact h
+  · simp only [hany]
+    have hnc : ¬ hasCounter c ssid := fun hh => hany ((any_ssid_iff c ssid).2 hh)
+    have hnew : (ssid, c.key) ∉ b.trie.root.abs := fun hh => hnc ((h.self_pairs hc ssid).1 hh).2
+    refine sync_update (c₀ := c) (c' := { c with counters := c.counters ++ [⟨ssid, channel, 1⟩] })
+      h hc rfl rfl rfl ?_ ?_ ?_ ?_ ?_ ?_
+    · exact wf_insert _ _ _ h.wf
+    · show (b.trie.subscribe ssid c.key).count = (b.trie.subscribe ssid c.key).root.abs.length
+      simp only [T.subscribe]
+      rw [abs_length_insert _ _ _ h.wf, (insert_new_iff _ _ _ h.wf).2 hnew, h.count]
+      simp
+    · intro p k hk
+      show (p, k) ∈ (b.trie.root.insert ssid c.key).1.abs ↔ _
+      rw [abs_insert _ _ _ h.wf]
+      constructor
+      · rintro (he | he)
+        · exact absurd (Prod.mk.inj he).2 hk
+        · exact he
+      · exact Or.inr
+    · intro p
+      show (p, c.key) ∈ (b.trie.root.insert ssid c.key).1.abs ↔ _
+      rw [abs_insert _ _ _ h.wf, h.self_pairs hc, hasCounter_append]
+      constructor
+      · rintro (he | ⟨_, hp⟩)
+        · exact ⟨ha, Or.inr (Prod.mk.inj he).1⟩
+        · exact ⟨ha, Or.inl hp⟩
+      · rintro ⟨_, hp | rfl⟩
+        · exact Or.inr ⟨ha, hp⟩
+        · exact Or.inl rfl
+    · intro hd; rw [show ({ c with counters := c.counters ++ [⟨ssid, channel, 1⟩] } : Conn).alive = c.alive from rfl, ha] at hd
+      cases hd
+    · obtain ⟨hnd, hc1⟩ := h.ctrs c hc
+      constructor
+      · show ((c.counters ++ [(⟨ssid, channel, 1⟩ : Counter)]).map (·.ssid)).Nodup
+        rw [List.map_append, List.nodup_append]
+        refine ⟨hnd, by simp, ?_⟩
+        intro a ha' x hx
+        simp only [List.map_cons, List.map_nil, List.mem_singleton] at hx
+        subst hx
+        rintro rfl
+        obtain ⟨ctr, hm, he⟩ := List.mem_map.1 ha'
+        exact hnc ⟨ctr, hm, he⟩
+      · intro ctr hm
+        rcases List.mem_append.1 hm with hm | hm
+        · exact hc1 ctr hm
+        · rw [List.mem_singleton.1 hm]
+
+theorem sync_unsubscribeConn {b : B} {c : Conn} (h : Sync b) (hc : c ∈ b.conns) (ha : c.alive = true)
+    (ssid : Path) (channel : Bytes) : Sync (unsubscribeConn b c ssid channel).1 := by
+  obtain ⟨hnd, hc1⟩ := h.ctrs c hc
+  rw [unsubscribeConn_eq _ _ _ _ hc1]
+  have hctrs' : ((c.counters.filter (·.ssid != ssid)).map (·.ssid)).Nodup ∧
+      ∀ ctr ∈ c.counters.filter (·.ssid != ssid), ctr.count = 1 :=
+    ⟨List.Nodup.sublist (List.filter_sublist.map _) hnd, fun ctr hm => hc1 ctr (List.mem_filter.1 hm).1⟩
+  by_cases hany : c.counters.any (·.ssid == ssid) = true
+  · simp only [hany, if_true]
+    have hhc : hasCounter c ssid := (any_ssid_iff c ssid).1 hany
+    have hin : (ssid, c.key) ∈ b.trie.root.abs := (h.self_pairs hc ssid).2 ⟨ha, hhc⟩
+    have hpres : (b.trie.root.lookup b.mode ssid).contains c.key = true := by
+      rw [List.contains_iff_mem, lookup_spec]
+      exact ⟨ssid, hin, matches_self _ _⟩
+    simp only [hpres, if_true]
+    refine sync_update (c₀ := c) (c' := { c with counters := c.counters.filter (·.ssid != ssid) })
+      h hc rfl rfl rfl ?_ ?_ ?_ ?_ ?_ hctrs'
+    · exact wf_remove _ _ _ h.wf
+    · show (b.trie.unsubscribe ssid c.key).count = (b.trie.unsubscribe ssid c.key).root.abs.length
+      simp only [T.unsubscribe]
+      have hl := abs_length_remove b.trie.root ssid c.key h.wf
+      rw [(remove_hit_iff _ _ _ h.wf).2 hin] at hl ⊢
+      simp only [if_true] at hl ⊢
+      rw [h.count]; omega
+    · intro p k hk
+      show (p, k) ∈ (b.trie.root.remove ssid c.key).1.abs ↔ _
+      rw [abs_remove _ _ _ h.wf]
+      constructor
+      · exact fun he => he.1
+      · exact fun he => ⟨he, fun hh => hk (Prod.mk.inj hh).2⟩
+    · intro p
+      show (p, c.key) ∈ (b.trie.root.remove ssid c.key).1.abs ↔ _
+      rw [abs_remove _ _ _ h.wf, h.self_pairs hc, hasCounter_filter]
+      constructor
+      · rintro ⟨⟨_, hp⟩, hne⟩
+        exact ⟨ha, fun hh => hne (by rw [hh]), hp⟩
+      · rintro ⟨_, hne, hp⟩
+        exact ⟨⟨ha, hp⟩, fun hh => hne (Prod.mk.inj hh).1⟩
+    · intro hd
+      rw [show ({ c with counters := c.counters.filter (·.ssid != ssid) } : Conn).alive = c.alive from rfl, ha] at hd
+      cases hd
+  · simp only [hany]
+    have hnc : ¬ hasCounter c ssid := fun hh => hany ((any_ssid_iff c ssid).2 hh)
+    refine sync_update (c₀ := c) (c' := { c with counters := c.counters.filter (·.ssid != ssid) })
+      h hc rfl rfl rfl h.wf h.count (fun _ _ _ => Iff.rfl) ?_ ?_ hctrs'
+    · intro p
+      show (p, c.key) ∈ b.trie.root.abs ↔ _
+      rw [h.self_pairs hc, hasCounter_filter]
+      constructor
+      · rintro ⟨_, hp⟩
+        exact ⟨ha, fun hh => hnc (hh ▸ hp), hp⟩
+      · rintro ⟨_, _, hp⟩
+        exact ⟨ha, hp⟩
+    · intro hd
+      rw [show ({ c with counters := c.counters.filter (·.ssid != ssid) } : Conn).alive = c.alive from rfl, ha] at hd
+      cases hd
+
+/-! ### frames -/
+
+theorem Sync.congr {b b' : B} (h : Sync b) (ht : b'.trie = b.trie) (hc : b'.conns = b.conns) : Sync b' := by
+  refine ⟨?_, ?_, ?_, ?_, ?_, ?_, ?_⟩
+  · rw [ht]; exact h.wf
+  · rw [hc]; exact h.names
+  · rw [hc]; exact h.keys
+  · rw [hc, ht]; exact h.pairs
+  · rw [hc]; exact h.dead
+  · rw [hc]; exact h.ctrs
+  · rw [ht]; exact h.count
+
+theorem find?_setConn_self (c : Conn) : ∀ (l : List Conn), (∃ y ∈ l, y.name = c.name) →
+    (l.map (fun x => if x.name == c.name then c else x)).find? (·.name == c.name) = some c
+  | [], h => by obtain ⟨y, hy, _⟩ := h; cases hy
+  | x :: xs, h => by
+      by_cases hx : x.name = c.name
+      · simp [hx]
+      · have hex : ∃ y ∈ xs, y.name = c.name := by
+          obtain ⟨y, hy, hyn⟩ := h
+          rcases List.mem_cons.1 hy with rfl | hy'
+          · exact absurd hyn hx
+          · exact ⟨y, hy', hyn⟩
+        have ih := find?_setConn_self c xs hex
+        simpa [hx] using ih
+
+theorem conn?_setConn {b : B} {c : Conn} (hex : ∃ y ∈ b.conns, y.name = c.name) :
+    (b.setConn c).conn? c.name = some c :=
+  find?_setConn_self c b.conns hex
+
+theorem subscribeConn_frame (b : B) (c : Conn) (ssid : Path) (ch : Bytes) :
+    (subscribeConn b c ssid ch).1.store = b.store ∧ (subscribeConn b c ssid ch).1.open_ = b.open_ ∧
+    (subscribeConn b c ssid ch).1.mode = b.mode ∧ (subscribeConn b c ssid ch).1.banned = b.banned := by
+  rw [subscribeConn_eq]
+  split <;> exact ⟨rfl, rfl, rfl, rfl⟩
+
+theorem unsubscribeConn_frame (b : B) (c : Conn) (ssid : Path) (ch : Bytes) :
+    (unsubscribeConn b c ssid ch).1.store = b.store ∧ (unsubscribeConn b c ssid ch).1.open_ = b.open_ ∧
+    (unsubscribeConn b c ssid ch).1.mode = b.mode ∧ (unsubscribeConn b c ssid ch).1.banned = b.banned := by
+  unfold unsubscribeConn
+  rcases dec c.counters ssid with ⟨cs, last⟩
+  cases last <;> exact ⟨rfl, rfl, rfl, rfl⟩
+
+theorem unsubscribeConn_conns (b : B) (c : Conn) (ssid : Path) (ch : Bytes)
+    (h1 : ∀ ctr ∈ c.counters, ctr.count = 1) :
+    (unsubscribeConn b c ssid ch).1.conns =
+      (b.setConn { c with counters := c.counters.filter (·.ssid != ssid) }).conns := by
+  rw [unsubscribeConn_eq _ _ _ _ h1]
+  split <;> rfl
+
+theorem lastWill_frame (auth : Auth) (b : B) (c : Conn) :
+    (lastWill auth b c).1.trie = b.trie ∧ (lastWill auth b c).1.conns = b.conns ∧
+    (lastWill auth b c).1.open_ = b.open_ ∧ (lastWill auth b c).1.mode = b.mode := by
+  unfold lastWill
+  dsimp only
+  split
+  · exact ⟨rfl, rfl, rfl, rfl⟩
+  split
+  · exact ⟨rfl, rfl, rfl, rfl⟩
+  split
+  · exact ⟨rfl, rfl, rfl, rfl⟩
+  split
+  · exact ⟨rfl, rfl, rfl, rfl⟩
+  split <;> exact ⟨rfl, rfl, rfl, rfl⟩
+
+/-! ### close -/
+
+def closeF (name : String) (acc : B × Out) (ctr : Counter) : B × Out :=
+  match acc.1.conn? name with
+  | some cur => let r := unsubscribeConn acc.1 cur ctr.ssid ctr.channel; (r.1, acc.2 ++ r.2)
+  | none => acc
+
+theorem closeConn_eq (auth : Auth) (b : B) (c : Conn) :
+    closeConn auth b c =
+      ((lastWill auth (c.counters.foldl (closeF c.name) ({ b with open_ := b.open_ - 1 }, [])).1
+          (((c.counters.foldl (closeF c.name) ({ b with open_ := b.open_ - 1 }, [])).1.conn? c.name).getD c)).1.setConn
+        { (((c.counters.foldl (closeF c.name) ({ b with open_ := b.open_ - 1 }, [])).1.conn? c.name).getD c) with alive := false },
+       (c.counters.foldl (closeF c.name) ({ b with open_ := b.open_ - 1 }, [])).2 ++
+       (lastWill auth (c.counters.foldl (closeF c.name) ({ b with open_ := b.open_ - 1 }, [])).1
+          (((c.counters.foldl (closeF c.name) ({ b with open_ := b.open_ - 1 }, [])).1.conn? c.name).getD c)).2) := rfl
+
+theorem close_fold (name : String) : ∀ (cs : List Counter) (b : B) (out : Out) (cur : Conn),
+    Sync b → b.conn? name = some cur → cur.alive = true → cur.counters = cs →
+    Sync (cs.foldl (closeF name) (b, out)).1 ∧
+    (cs.foldl (closeF name) (b, out)).1.conn? name = some { cur with counters := [] } ∧
+    (cs.foldl (closeF name) (b, out)).1.open_ = b.open_ ∧
+    (∀ c₂ ∈ b.conns, c₂.name ≠ name → c₂ ∈ (cs.foldl (closeF name) (b, out)).1.conns)
+  | [], b, out, cur, h, hcur, _, hcs => by
+      refine ⟨h, ?_, rfl, fun _ h2 _ => h2⟩
+      cases cur; simp only at hcs; subst hcs; exact hcur
+  | ctr :: rest, b, out, cur, h, hcur, ha, hcs => by
+      have hmem := conn?_mem hcur
+      have hname := conn?_name hcur
+      obtain ⟨hnd, hc1⟩ := h.ctrs cur hmem
+      have hstep : closeF name (b, out) ctr =
+          ((unsubscribeConn b cur ctr.ssid ctr.channel).1, out ++ (unsubscribeConn b cur ctr.ssid ctr.channel).2) := by
+        simp only [closeF, hcur]
+      rw [List.foldl_cons, hstep]
+      have hconns := unsubscribeConn_conns b cur ctr.ssid ctr.channel hc1
+      have hfil : cur.counters.filter (·.ssid != ctr.ssid) = rest := by
+        rw [hcs] at hnd ⊢
+        simp only [List.map_cons, List.nodup_cons, List.mem_map, not_exists, not_and] at hnd
+        rw [List.filter_cons]
+        simp only [bne_self_eq_false, Bool.false_eq_true, if_false]
+        apply List.filter_eq_self.2
+        intro a ha'
+        simp only [bne_iff_ne, ne_eq]
+        exact hnd.1 a ha'
+      have hcur' : (unsubscribeConn b cur ctr.ssid ctr.channel).1.conn? name =
+          some { cur with counters := rest } := by
+        show List.find? _ (unsubscribeConn b cur ctr.ssid ctr.channel).1.conns = _
+        rw [hconns, hfil, ← hname]
+        exact conn?_setConn (c := { cur with counters := rest }) ⟨cur, hmem, rfl⟩
+      obtain ⟨i1, i2, i3, i4⟩ := close_fold name rest (unsubscribeConn b cur ctr.ssid ctr.channel).1
+        (out ++ (unsubscribeConn b cur ctr.ssid ctr.channel).2) { cur with counters := rest }
+        (sync_unsubscribeConn h hmem ha _ _) hcur' ha rfl
+      refine ⟨i1, i2, ?_, ?_⟩
+      · rw [i3]; exact (unsubscribeConn_frame b cur ctr.ssid ctr.channel).2.1
+      · intro c₂ h2 hn2
+        apply i4 c₂ _ hn2
+        rw [hconns]
+        exact mem_setConn.2 (Or.inr ⟨h2, by rw [show ({ cur with counters := cur.counters.filter (·.ssid != ctr.ssid) } : Conn).name = cur.name from rfl, hname]; exact hn2⟩)
+
+theorem sync_kill {b : B} {c : Conn} (h : Sync b) (hc : c ∈ b.conns) (h0 : c.counters = []) :
+    Sync (b.setConn { c with alive := false }) := by
+  refine sync_update (c₀ := c) (c' := { c with alive := false }) h hc rfl rfl rfl h.wf h.count
+    (fun _ _ _ => Iff.rfl) ?_ (fun _ => h0) ?_
+  · intro p
+    show (p, c.key) ∈ b.trie.root.abs ↔ _
+    rw [h.self_pairs hc]
+    simp [hasCounter, h0]
+  · show ((c.counters.map (·.ssid)).Nodup ∧ ∀ ctr ∈ c.counters, ctr.count = 1)
+    rw [h0]; simp
+
+/-- everything `closeConn` guarantees, in one place -/
+theorem closeConn_spec (auth : Auth) (b : B) (name : String) (c : Conn) (h : Sync b)
+    (hc : b.conn? name = some c) (ha : c.alive = true) :
+    Sync (closeConn auth b c).1 ∧
+    (closeConn auth b c).1.conn? name = some { c with counters := [], alive := false } ∧
+    (closeConn auth b c).1.open_ = b.open_ - 1 ∧
+    (∀ c₂ ∈ b.conns, c₂.name ≠ name → c₂ ∈ (closeConn auth b c).1.conns) := by
+  have hname := conn?_name hc
+  have hsync0 : Sync { b with open_ := b.open_ - 1 } := h.congr rfl rfl
+  obtain ⟨f1, f2, f3, f4⟩ := close_fold name c.counters { b with open_ := b.open_ - 1 } [] c hsync0 hc ha rfl
+  rw [closeConn_eq, hname, f2]
+  simp only [Option.getD_some]
+  generalize hr : (c.counters.foldl (closeF name) ({ b with open_ := b.open_ - 1 }, [])) = r at f1 f2 f3 f4 ⊢
+  obtain ⟨w1, w2, w3, _⟩ := lastWill_frame auth r.1 { c with counters := [] }
+  have hsw : Sync (lastWill auth r.1 { c with counters := [] }).1 := f1.congr w1 w2
+  have hcm : ({ c with counters := [] } : Conn) ∈ (lastWill auth r.1 { c with counters := [] }).1.conns := by
+    rw [w2]; exact conn?_mem f2
+  refine ⟨sync_kill hsw hcm rfl, ?_, ?_, ?_⟩
+  · rw [← hname]
+    exact conn?_setConn (c := { c with counters := [], alive := false }) ⟨_, hcm, rfl⟩
+  · show (lastWill auth r.1 { c with counters := [] }).1.open_ = _
+    rw [w3, f3]
+  · intro c₂ h2 hn2
+    apply mem_setConn.2
+    right
+    refine ⟨by rw [w2]; exact f4 c₂ h2 hn2, ?_⟩
+    show c₂.name ≠ c.name
+    rw [hname]; exact hn2
+
+/-! ### the invariant -/
+
 theorem sync_init : Sync {} := by
-  sorry
+  refine ⟨wf_empty, List.nodup_nil, ?_, ?_, ?_, ?_, rfl⟩
+  · intro c₁ h₁; cases h₁
+  · intro p k
+    constructor
+    · intro hh; cases hh
+    · rintro ⟨c, hc, _⟩; cases hc
+  · intro c hc; cases hc
+  · intro c hc; cases hc
 
 /-- accepting a connection whose name and subscriber key are new -/
 theorem sync_accept (b : B) (name : String) (guid : Bytes) (h : Sync b)
     (hn : ∀ c ∈ b.conns, c.name ≠ name) (hk : ∀ c ∈ b.conns, c.key ≠ Hash.hashOf guid) :
     Sync (accept b name guid) := by
-  sorry
+  have hmem : ∀ x, x ∈ (accept b name guid).conns ↔ x ∈ b.conns ∨ x = { name := name, guid := guid } := by
+    intro x; simp [accept]
+  refine ⟨h.wf, ?_, ?_, ?_, ?_, ?_, h.count⟩
+  · show ((b.conns ++ [({ name := name, guid := guid } : Conn)]).map (·.name)).Nodup
+    rw [List.map_append, List.nodup_append]
+    refine ⟨h.names, by simp, ?_⟩
+    intro a ha x hx
+    simp only [List.map_cons, List.map_nil, List.mem_singleton] at hx
+    subst hx
+    obtain ⟨c, hc, rfl⟩ := List.mem_map.1 ha
+    exact hn c hc
+  · intro c₁ h₁ c₂ h₂ hkk
+    rcases (hmem _).1 h₁ with h₁ | rfl <;> rcases (hmem _).1 h₂ with h₂ | rfl
+    · exact h.keys _ h₁ _ h₂ hkk
+    · exact absurd hkk (hk _ h₁)
+    · exact absurd hkk.symm (hk _ h₂)
+    · rfl
+  · intro p k
+    show (p, k) ∈ b.trie.root.abs ↔ _
+    rw [h.pairs]
+    constructor
+    · rintro ⟨c, hc, hr⟩; exact ⟨c, (hmem _).2 (Or.inl hc), hr⟩
+    · rintro ⟨c, hc, ha, hck, hp⟩
+      rcases (hmem _).1 hc with hc | rfl
+      · exact ⟨c, hc, ha, hck, hp⟩
+      · obtain ⟨ctr, hm, _⟩ := hp; cases hm
+  · intro c hc hd
+    rcases (hmem _).1 hc with hc | rfl
+    · exact h.dead c hc hd
+    · rfl
+  · intro c hc
+    rcases (hmem _).1 hc with hc | rfl
+    · exact h.ctrs c hc
+    · exact ⟨List.nodup_nil, fun _ hm => by cases hm⟩
+
+theorem sync_setConn_same {b : B} {c c' : Conn} (h : Sync b) (hc : c ∈ b.conns) (hn : c'.name = c.name)
+    (hg : c'.guid = c.guid) (hcs : c'.counters = c.counters) (hal : c'.alive = c.alive) :
+    Sync (b.setConn c') := by
+  refine sync_update (c₀ := c) (c' := c') h hc hn (by unfold Conn.key; rw [hg]) rfl h.wf h.count
+    (fun _ _ _ => Iff.rfl) ?_ ?_ ?_
+  · intro p
+    show (p, c.key) ∈ b.trie.root.abs ↔ _
+    rw [h.self_pairs hc, hal]
+    unfold hasCounter
+    rw [hcs]
+  · intro hd
+    rw [hcs]; exact h.dead c hc (hal ▸ hd)
+  · rw [hcs]; exact h.ctrs c hc
+
+theorem step_none (auth : Auth) (b : B) (name : String) (r : Req) (hc : b.conn? name = none) :
+    step auth b name r = (b, []) := by
+  simp only [step, hc]
+
+/-- a closed connection is never served again (so its last will cannot fire twice) -/
+theorem dead_silent (auth : Auth) (b : B) (name : String) (c : Conn) (r : Req)
+    (hc : b.conn? name = some c) (ha : c.alive = false) : step auth b name r = (b, []) := by
+  simp [step, hc, ha]
 
 /-- every request, by any connection, under any authorizer, preserves the invariant -/
 theorem sync_step (auth : Auth) (b : B) (name : String) (r : Req) (h : Sync b) :
     Sync (step auth b name r).1 := by
-  sorry
-
-/-- a filter matches itself as a channel, in both modes -/
-theorem matches_self (m : Mode) (p : Path) : matchesMode m p p = true := by
-  sorry
+  cases hc : b.conn? name with
+  | none => rw [step_none auth b name r hc]; exact h
+  | some c =>
+    have hm := conn?_mem hc
+    have hname := conn?_name hc
+    cases ha : c.alive with
+    | false => rw [dead_silent auth b name c r hc ha]; exact h
+    | true =>
+    cases r with
+    | connect un wf wr wt wm =>
+        simp only [step, hc]; rw [if_neg (by simp [ha])]
+        exact sync_setConn_same h hm rfl rfl rfl rfl
+    | subscribe mid topic qos =>
+        simp only [step, hc]; rw [if_neg (by simp [ha])]
+        split
+        · exact h
+        split
+        · exact h
+        split
+        · exact h
+        exact sync_subscribeConn h hm ha _ _
+    | unsubscribe mid topic =>
+        simp only [step, hc]; rw [if_neg (by simp [ha])]
+        split
+        · exact h
+        split
+        · exact h
+        split
+        · exact h
+        exact sync_unsubscribeConn h hm ha _ _
+    | publish qos retain mid topic payload =>
+        simp only [step, hc]; rw [if_neg (by simp [ha])]
+        generalize (if topic.length ≤ 2 then ((c.links.find? (·.1 == topic)).map (·.2)).getD [] else topic) = t
+        split
+        · exact h
+        split
+        · exact h
+        split
+        · exact h
+        split
+        · exact h
+        split
+        · exact h.congr rfl rfl
+        · exact h
+    | link mid nm key channel sub =>
+        simp only [step, hc]; rw [if_neg (by simp [ha])]
+        split
+        · exact h
+        split
+        · exact h
+        dsimp only
+        generalize ((nm, (parseChannel (key ++ [sep] ++ channel)).toBytes) :: c.links.filter (fun x => x.1 != nm)) = lk
+        have hs' : Sync (b.setConn { c with links := lk }) := sync_setConn_same h hm rfl rfl rfl rfl
+        have hm' : ({ c with links := lk } : Conn) ∈ (b.setConn { c with links := lk }).conns :=
+          mem_setConn.2 (Or.inl ⟨rfl, c, hm, rfl⟩)
+        split
+        · split
+          · exact sync_subscribeConn hs' hm' ha _ _
+          · exact hs'
+        · exact hs'
+    | presence mid key channel status changes =>
+        simp only [step, hc]; rw [if_neg (by simp [ha])]
+        generalize (if channel.getLast? == some sep then channel else channel ++ [sep]) = chn
+        split
+        · exact h
+        split
+        · exact h
+        split
+        · exact h
+        split <;> (dsimp only [Option.getD_some]; split)
+        · exact sync_subscribeConn h hm ha _ _
+        · exact sync_unsubscribeConn h hm ha _ _
+        · exact h
+        · exact sync_subscribeConn h hm ha _ _
+        · exact sync_unsubscribeConn h hm ha _ _
+        · exact h
+    | close =>
+        simp only [step, hc]; rw [if_neg (by simp [ha])]
+        exact (closeConn_spec auth b name c h hc ha).1
+/-! ### delivery -/
 
 /-- who a lookup reaches, in terms of the bookkeeping -/
 theorem receivers_spec (b : B) (h : Sync b) (ssid : Path) (c : Conn) (hc : c ∈ b.conns) :
     (c.alive && ((b.trie.root.lookup b.mode ssid).eraseDups).contains c.key) = true ↔
       c.alive = true ∧ receives b.mode c ssid := by
-  sorry
+  rw [Bool.and_eq_true, List.contains_iff_mem, List.mem_eraseDups, lookup_spec]
+  constructor
+  · rintro ⟨ha, f, hf, hmatch⟩
+    exact ⟨ha, f, ((h.self_pairs hc f).1 hf).2, hmatch⟩
+  · rintro ⟨ha, f, hf, hmatch⟩
+    exact ⟨ha, f, (h.self_pairs hc f).2 ⟨ha, hf⟩, hmatch⟩
+
+theorem mem_deliver (b : B) (ssid : Path) (excl : Option Sub) (pkt : Pkt) (e : String × Pkt) :
+    e ∈ deliver b ssid excl pkt ↔ ∃ c ∈ b.conns,
+      ((c.alive && ((b.trie.root.lookup b.mode ssid).eraseDups).contains c.key) = true ∧ excl ≠ some c.key) ∧
+      e = (c.name, pkt) := by
+  unfold deliver
+  simp only [List.mem_filterMap]
+  constructor
+  · rintro ⟨c, hc, hsome⟩
+    split at hsome
+    · rename_i hcond
+      rw [Bool.and_eq_true, bne_iff_ne] at hcond
+      exact ⟨c, hc, hcond, (Option.some.inj hsome).symm⟩
+    · cases hsome
+  · rintro ⟨c, hc, hcond, rfl⟩
+    refine ⟨c, hc, ?_⟩
+    rw [if_pos]
+    rw [Bool.and_eq_true, bne_iff_ne]
+    exact hcond
+
+theorem deliver_snd {b : B} {ssid : Path} {excl : Option Sub} {pkt : Pkt} {e : String × Pkt}
+    (h : e ∈ deliver b ssid excl pkt) : e.2 = pkt := by
+  obtain ⟨c, _, _, rfl⟩ := (mem_deliver b ssid excl pkt e).1 h
+  rfl
 
 /-- `Publish`: exactly the live connections holding a matching subscription, minus the
 excluded publisher, each once, the packet unchanged -/
 theorem deliver_spec (b : B) (h : Sync b) (ssid : Path) (excl : Option Sub) (pkt : Pkt) (n : String) (p : Pkt) :
     (n, p) ∈ deliver b ssid excl pkt ↔
       p = pkt ∧ ∃ c ∈ b.conns, c.name = n ∧ c.alive = true ∧ receives b.mode c ssid ∧ excl ≠ some c.key := by
-  sorry
+  rw [mem_deliver]
+  constructor
+  · rintro ⟨c, hc, ⟨hr, hex⟩, he⟩
+    obtain ⟨rfl, rfl⟩ := Prod.mk.inj he
+    obtain ⟨ha, hrec⟩ := (receivers_spec b h ssid c hc).1 hr
+    exact ⟨rfl, c, hc, rfl, ha, hrec, hex⟩
+  · rintro ⟨rfl, c, hc, rfl, ha, hrec, hex⟩
+    exact ⟨c, hc, ⟨(receivers_spec b h ssid c hc).2 ⟨ha, hrec⟩, hex⟩, rfl⟩
+
+theorem filterMap_names_sublist (P : Conn → Bool) (p : Pkt) : ∀ l : List Conn,
+    ((l.filterMap (fun c => if P c then some (c.name, p) else none)).map Prod.fst).Sublist (l.map (·.name))
+  | [] => List.Sublist.slnil
+  | x :: xs => by
+      rw [List.filterMap_cons]
+      by_cases hx : P x = true
+      · simp only [hx, if_true, List.map_cons]
+        exact (filterMap_names_sublist P p xs).cons_cons _
+      · simp only [hx, List.map_cons]
+        exact (filterMap_names_sublist P p xs).cons _
 
 theorem deliver_once (b : B) (h : Sync b) (ssid : Path) (excl : Option Sub) (pkt : Pkt) :
     ((deliver b ssid excl pkt).map Prod.fst).Nodup := by
-  sorry
+  unfold deliver
+  exact List.Nodup.sublist (filterMap_names_sublist _ pkt b.conns) h.names
+
+/-- the field text of a presence notification (as built by `notify`) -/
+def notifyFields (event : String) (c : Conn) (channel : Bytes) : String :=
+  let un := if c.username.isEmpty then "" else s!",who.username={strOf c.username}"
+  s!"channel={strOf channel},event={event},who.id={strOf c.guid}{un}"
+
+theorem notify_eq (b : B) (event : String) (c : Conn) (ssid : Path) (channel : Bytes) :
+    notify b event c ssid channel =
+      deliver b (presenceSsid ssid) none (.json (strBytes "emitter/presence/") (notifyFields event c channel)) := rfl
+
+/-- who receives a notification about `ssid`: exactly the live connections watching it
+(a presence subscription on the channel or on a parent channel), and what they receive: one
+fixed JSON packet on the presence topic.
+
+AMENDED STATEMENT. The original read, for given `n p`,
+`(n, p) ∈ notify … ↔ (∃ f, p = .json "emitter/presence/" f) ∧ ∃ w ∈ b.conns, …`, whose right-to-left
+direction is false: with a live watcher `w`, the right-hand side holds for EVERY json packet on
+the presence topic (any field text `f`), while `notify` sends one specific packet (see
+`notify_receivers_original_false` below). The existential over the field text is therefore moved
+outside the equivalence: there is one field text `f` such that for all `n p` the equivalence holds. -/
+theorem notify_receivers (b : B) (h : Sync b) (event : String) (c : Conn) (ssid : Path) (channel : Bytes) :
+    ∃ f, ∀ (n : String) (p : Pkt),
+      (n, p) ∈ notify b event c ssid channel ↔
+        p = .json (strBytes "emitter/presence/") f ∧
+        ∃ w ∈ b.conns, w.name = n ∧ w.alive = true ∧ receives b.mode w (presenceSsid ssid) := by
+  refine ⟨notifyFields event c channel, fun n p => ?_⟩
+  rw [notify_eq, deliver_spec b h]
+  constructor
+  · rintro ⟨hp, w, hw, hn, ha, hr, _⟩
+    exact ⟨hp, w, hw, hn, ha, hr⟩
+  · rintro ⟨hp, w, hw, hn, ha, hr⟩
+    exact ⟨hp, w, hw, hn, ha, hr, by simp⟩
+
+/-! ### C18: presence -/
+
+theorem subscribeConn_out (b : B) (c : Conn) (ssid : Path) (channel : Bytes) :
+    (subscribeConn b c ssid channel).2 =
+      if c.counters.any (·.ssid == ssid) then []
+      else notify (subscribeConn b c ssid channel).1 "subscribe"
+             { c with counters := c.counters ++ [⟨ssid, channel, 1⟩] } ssid channel := by
+  rw [subscribeConn_eq]
+  by_cases hany : c.counters.any (·.ssid == ssid) = true
+  · simp only [hany, if_true]
+  · simp only [hany]; rfl
+
+theorem unsubscribeConn_out (b : B) (c : Conn) (ssid : Path) (channel : Bytes)
+    (h1 : ∀ ctr ∈ c.counters, ctr.count = 1) :
+    (unsubscribeConn b c ssid channel).2 =
+      if c.counters.any (·.ssid == ssid) then
+        notify (unsubscribeConn b c ssid channel).1 "unsubscribe"
+          { c with counters := c.counters.filter (·.ssid != ssid) } ssid channel
+      else [] := by
+  rw [unsubscribeConn_eq _ _ _ _ h1]
+  by_cases hany : c.counters.any (·.ssid == ssid) = true
+  · simp only [hany, if_true]
+  · simp only [hany]; rfl
+
+theorem queryStore_spec (b : B) (ssid : Path) (limit : Nat) :
+    queryStore b ssid limit = ((b.store.filter (fun m => ssidMatches ssid m.ssid)).reverse.take limit).reverse := by
+  unfold queryStore
+  rw [List.take_reverse, List.reverse_reverse]
+
+theorem ttlOf_pos_iff (retain : Bool) (ch : Channel) :
+    ttlOf retain ch > 0 ↔ retain = true ∨ ∃ t, ch.ttl = some t ∧ t > 0 := by
+  unfold ttlOf
+  cases ht : ch.ttl with
+  | none =>
+      cases retain <;> simp [Generated.msgRetainedTTL]
+  | some t =>
+      dsimp only
+      by_cases hp : t > 0
+      · have : t.toNat > 0 := Int.pos_iff_toNat_pos.1 hp
+        simp only [hp, if_true]
+        constructor
+        · intro _; exact Or.inr ⟨t, rfl, hp⟩
+        · intro _; split
+          · simp [Generated.msgRetainedTTL]
+          · exact this
+      · simp only [hp, if_false]
+        cases retain
+        · simp [hp]
+        · simp [Generated.msgRetainedTTL]
+/-! ### C02: publish / subscribe / unsubscribe -/
 
 /-- the topic a PUBLISH is processed under (`GetLink`) -/
 def resolve (c : Conn) (topic : Bytes) : Bytes :=
   if topic.length ≤ 2 then ((c.links.find? (·.1 == topic)).map (·.2)).getD [] else topic
 
-/-- An accepted PUBLISH: delivered through `deliver` on the publisher's contract and the parsed
-channel, payload and channel (key and options stripped) unchanged, followed by the PUBACK;
-subscriptions and connections untouched. -/
+theorem static_ne_invalid {ch : Channel} (hs : ch.ctype = chStatic) : ch.ctype ≠ chInvalid := by
+  rw [hs]; decide
+
 theorem publish_exact (auth : Auth) (b : B) (name : String) (c : Conn) (qos : UInt8) (retain : Bool)
     (mid : UInt16) (topic payload : Bytes) (g : Grant)
     (hc : b.conn? name = some c) (ha : c.alive = true)
@@ -72,24 +821,44 @@ theorem publish_exact (auth : Auth) (b : B) (name : String) (c : Conn) (qos : UI
     r.1.trie = b.trie ∧ r.1.conns = b.conns ∧
     r.2 = deliver r.1 (g.contract :: ch.query) (if ch.exclude then some c.key else none) (.pub ch.channel payload)
             ++ (if qos > 0 then [(name, .puback mid)] else []) := by
-  sorry
+  have hi := static_ne_invalid hs
+  unfold resolve at hs hauth hi ⊢
+  simp only [step, hc]; rw [if_neg (by simp [ha])]
+  generalize (if topic.length ≤ 2 then ((c.links.find? (·.1 == topic)).map (·.2)).getD [] else topic) = t at hs hauth hi ⊢
+  rw [if_neg (by simpa using hi), if_neg (by simp [hs])]
+  simp only [hauth, hx, Bool.false_eq_true, if_false]
+  refine ⟨?_, ?_, trivial⟩
+  · split <;> rfl
+  · split <;> rfl
 
-/-- A request that fails parsing or authorization changes nothing and is answered with an
-error (SUBACK 0x80 for a subscribe). -/
 theorem reject_subscribe (auth : Auth) (b : B) (name : String) (c : Conn) (mid : UInt16) (topic : Bytes) (qos : UInt8)
     (hc : b.conn? name = some c) (ha : c.alive = true)
     (hbad : (parseChannel (fixTopic topic)).ctype = chInvalid ∨
             auth b.banned (parseChannel (fixTopic topic)) permRead = none ∨
             ∃ g, auth b.banned (parseChannel (fixTopic topic)) permRead = some g ∧ g.has permExtend = true) :
     ∃ st, step auth b name (.subscribe mid topic qos) = (b, [(name, errPkt mid st), (name, .suback mid [0x80])]) := by
-  sorry
+  simp only [step, hc]; rw [if_neg (by simp [ha])]
+  by_cases h1 : (parseChannel (fixTopic topic)).ctype = chInvalid
+  · exact ⟨400, by rw [if_pos (by simp [h1])]⟩
+  · rw [if_neg (by simpa using h1)]
+    rcases hbad with hb | hb | ⟨g, hg, hgx⟩
+    · exact absurd hb h1
+    · exact ⟨401, by simp only [hb]⟩
+    · exact ⟨401, by simp only [hg, hgx, if_true]⟩
 
 theorem reject_unsubscribe (auth : Auth) (b : B) (name : String) (c : Conn) (mid : UInt16) (topic : Bytes)
     (hc : b.conn? name = some c) (ha : c.alive = true)
     (hbad : (parseChannel topic).ctype = chInvalid ∨ auth b.banned (parseChannel topic) permRead = none ∨
             ∃ g, auth b.banned (parseChannel topic) permRead = some g ∧ g.has permExtend = true) :
     ∃ st, step auth b name (.unsubscribe mid topic) = (b, [(name, errPkt mid st), (name, .unsuback mid)]) := by
-  sorry
+  simp only [step, hc]; rw [if_neg (by simp [ha])]
+  by_cases h1 : (parseChannel topic).ctype = chInvalid
+  · exact ⟨400, by rw [if_pos (by simp [h1])]⟩
+  · rw [if_neg (by simpa using h1)]
+    rcases hbad with hb | hb | ⟨g, hg, hgx⟩
+    · exact absurd hb h1
+    · exact ⟨401, by simp only [hb]⟩
+    · exact ⟨401, by simp only [hg, hgx, if_true]⟩
 
 theorem reject_publish (auth : Auth) (b : B) (name : String) (c : Conn) (qos : UInt8) (retain : Bool)
     (mid : UInt16) (topic payload : Bytes)
@@ -99,12 +868,47 @@ theorem reject_publish (auth : Auth) (b : B) (name : String) (c : Conn) (qos : U
             ∃ g, auth b.banned (parseChannel (resolve c topic)) permWrite = some g ∧ g.has permExtend = true) :
     ∃ st, step auth b name (.publish qos retain mid topic payload)
       = (b, [(name, errPkt mid st)] ++ (if qos > 0 then [(name, .puback mid)] else [])) := by
-  sorry
+  unfold resolve at hbad
+  simp only [step, hc]; rw [if_neg (by simp [ha])]
+  generalize (if topic.length ≤ 2 then ((c.links.find? (·.1 == topic)).map (·.2)).getD [] else topic) = t at hbad ⊢
+  by_cases h1 : (parseChannel t).ctype = chInvalid
+  · exact ⟨400, by rw [if_pos (by simp [h1])]⟩
+  · rw [if_neg (by simpa using h1)]
+    by_cases h2 : (parseChannel t).ctype = chStatic
+    · rw [if_neg (by simp [h2])]
+      rcases hbad with hb | hb | ⟨g, hg, hgx⟩
+      · exact absurd h2 hb
+      · exact ⟨401, by simp only [hb]⟩
+      · exact ⟨401, by simp only [hg, hgx, if_true]⟩
+    · exact ⟨403, by rw [if_pos (by simpa using h2)]⟩
 
-/-- a closed connection is never served again (so its last will cannot fire twice) -/
-theorem dead_silent (auth : Auth) (b : B) (name : String) (c : Conn) (r : Req)
-    (hc : b.conn? name = some c) (ha : c.alive = false) : step auth b name r = (b, []) := by
-  sorry
+theorem step_subscribe_eq (auth : Auth) (b : B) (name : String) (c : Conn) (mid : UInt16) (topic : Bytes) (qos : UInt8)
+    (g : Grant) (hc : b.conn? name = some c) (ha : c.alive = true)
+    (hv : (parseChannel (fixTopic topic)).ctype ≠ chInvalid)
+    (hauth : auth b.banned (parseChannel (fixTopic topic)) permRead = some g) (hx : g.has permExtend = false) :
+    step auth b name (.subscribe mid topic qos) =
+      ((subscribeConn b c (g.contract :: (parseChannel (fixTopic topic)).query) (parseChannel (fixTopic topic)).channel).1,
+       (subscribeConn b c (g.contract :: (parseChannel (fixTopic topic)).query) (parseChannel (fixTopic topic)).channel).2 ++
+        (if g.has permLoad then
+          (queryStore (subscribeConn b c (g.contract :: (parseChannel (fixTopic topic)).query) (parseChannel (fixTopic topic)).channel).1
+            (g.contract :: (parseChannel (fixTopic topic)).query)
+            (match (parseChannel (fixTopic topic)).last with | some v => v.toNat | none => 1)).map
+              (fun m => (name, Pkt.pub m.channel m.payload))
+         else []) ++ [(name, .suback mid [qos])]) := by
+  simp only [step, hc]; rw [if_neg (by simp [ha]), if_neg (by simpa using hv)]
+  simp only [hauth, hx, Bool.false_eq_true, if_false]
+  rfl
+
+theorem step_unsubscribe_eq (auth : Auth) (b : B) (name : String) (c : Conn) (mid : UInt16) (topic : Bytes)
+    (g : Grant) (hc : b.conn? name = some c) (ha : c.alive = true)
+    (hv : (parseChannel topic).ctype ≠ chInvalid)
+    (hauth : auth b.banned (parseChannel topic) permRead = some g) (hx : g.has permExtend = false) :
+    step auth b name (.unsubscribe mid topic) =
+      ((unsubscribeConn b c (g.contract :: (parseChannel topic).query) (parseChannel topic).channel).1,
+       (unsubscribeConn b c (g.contract :: (parseChannel topic).query) (parseChannel topic).channel).2 ++
+         [(name, .unsuback mid)]) := by
+  simp only [step, hc]; rw [if_neg (by simp [ha]), if_neg (by simpa using hv)]
+  simp only [hauth, hx, Bool.false_eq_true, if_false]
 
 /-- an accepted SUBSCRIBE is recorded (and a repeated one changes nothing) -/
 theorem subscribe_records (auth : Auth) (b : B) (name : String) (c : Conn) (mid : UInt16) (topic : Bytes) (qos : UInt8)
@@ -116,7 +920,25 @@ theorem subscribe_records (auth : Auth) (b : B) (name : String) (c : Conn) (mid 
     (∃ c', r.1.conn? name = some c' ∧ hasCounter c' ssid) ∧
     (hasCounter c ssid → r.1.trie = b.trie ∧ r.1.conns = b.conns) ∧
     r.2.getLast? = some (name, .suback mid [qos]) := by
-  sorry
+  have _ := h
+  dsimp only
+  rw [step_subscribe_eq auth b name c mid topic qos g hc ha hv hauth hx]
+  dsimp only
+  have hm := conn?_mem hc
+  have hname := conn?_name hc
+  refine ⟨?_, ?_, List.getLast?_concat⟩
+  · rw [subscribeConn_eq]
+    by_cases hany : c.counters.any (·.ssid == g.contract :: (parseChannel (fixTopic topic)).query) = true
+    · simp only [hany, if_true]
+      exact ⟨c, hc, (any_ssid_iff _ _).1 hany⟩
+    · simp only [hany]
+      refine ⟨{ c with counters := c.counters ++ [⟨g.contract :: (parseChannel (fixTopic topic)).query,
+        (parseChannel (fixTopic topic)).channel, 1⟩] }, ?_, (hasCounter_append c _ _ _ _).2 (Or.inr rfl)⟩
+      rw [← hname]
+      exact conn?_setConn (c := { c with counters := c.counters ++ [⟨_, _, 1⟩] }) ⟨c, hm, rfl⟩
+  · intro hh
+    rw [subscribeConn_eq, if_pos ((any_ssid_iff _ _).2 hh)]
+    exact ⟨rfl, rfl⟩
 
 /-- an accepted UNSUBSCRIBE removes exactly that subscription -/
 theorem unsubscribe_removes (auth : Auth) (b : B) (name : String) (c : Conn) (mid : UInt16) (topic : Bytes)
@@ -127,7 +949,31 @@ theorem unsubscribe_removes (auth : Auth) (b : B) (name : String) (c : Conn) (mi
     let r := step auth b name (.unsubscribe mid topic)
     (∃ c', r.1.conn? name = some c' ∧ ¬ hasCounter c' ssid ∧ ∀ p, p ≠ ssid → (hasCounter c' p ↔ hasCounter c p)) ∧
     (∀ c₂ ∈ b.conns, c₂.name ≠ name → c₂ ∈ r.1.conns) := by
-  sorry
+  dsimp only
+  rw [step_unsubscribe_eq auth b name c mid topic g hc ha hv hauth hx]
+  dsimp only
+  have hm := conn?_mem hc
+  have hname := conn?_name hc
+  have hconns := unsubscribeConn_conns b c (g.contract :: (parseChannel topic).query) (parseChannel topic).channel
+    (h.ctrs c hm).2
+  constructor
+  · refine ⟨{ c with counters := c.counters.filter (·.ssid != g.contract :: (parseChannel topic).query) }, ?_, ?_, ?_⟩
+    · show List.find? _ (unsubscribeConn b c _ _).1.conns = _
+      rw [hconns, ← hname]
+      exact conn?_setConn (c := { c with counters := c.counters.filter _ }) ⟨c, hm, rfl⟩
+    · rw [hasCounter_filter]; exact fun hh => hh.1 rfl
+    · intro p hp
+      rw [hasCounter_filter]; exact ⟨fun hh => hh.2, fun hh => ⟨hp, hh⟩⟩
+  · intro c₂ h2 hn2
+    rw [hconns]
+    exact mem_setConn.2 (Or.inr ⟨h2, by show c₂.name ≠ c.name; rw [hname]; exact hn2⟩)
+
+/-! ### C08: close and last will -/
+
+theorem step_close_eq (auth : Auth) (b : B) (name : String) (c : Conn)
+    (hc : b.conn? name = some c) (ha : c.alive = true) :
+    step auth b name .close = closeConn auth b c := by
+  simp only [step, hc]; rw [if_neg (by simp [ha])]
 
 /-- C08: when a connection ends, every subscription it held is removed, it stops receiving,
 other connections are untouched, the connection counter goes down by one -/
@@ -139,7 +985,54 @@ theorem close_cleans (auth : Auth) (b : B) (name : String) (c : Conn) (h : Sync 
     (∀ c₂ ∈ b.conns, c₂.name ≠ name → c₂ ∈ r.1.conns) ∧
     r.1.open_ = b.open_ - 1 ∧
     (∀ ssid excl pkt, (name, pkt) ∉ deliver r.1 ssid excl pkt) := by
-  sorry
+  dsimp only
+  rw [step_close_eq auth b name c hc ha]
+  obtain ⟨s1, s2, s3, s4⟩ := closeConn_spec auth b name c h hc ha
+  have hm' := conn?_mem s2
+  have hname := conn?_name hc
+  refine ⟨⟨_, s2, rfl, rfl⟩, ?_, s4, s3, ?_⟩
+  · intro p hp
+    have := (s1.self_pairs hm' p).1 hp
+    exact absurd this.1 (by simp)
+  · intro ssid excl pkt hd
+    obtain ⟨_, c₂, h2, hn2, ha2, _⟩ := (deliver_spec _ s1 ssid excl pkt name pkt).1 hd
+    have : c₂ = { c with counters := [], alive := false } :=
+      eq_of_name_eq s1.names h2 hm' (by rw [hn2]; exact hname.symm)
+    rw [this] at ha2
+    cases ha2
+
+theorem lastWill_ok (auth : Auth) (b : B) (c : Conn) (g : Grant)
+    (h1 : c.hasConnect = true) (h2 : c.willFlag = true) (h3 : (parseChannel c.willTopic).ctype = chStatic)
+    (h4 : auth b.banned (parseChannel c.willTopic) permWrite = some g) (h5 : g.has permExtend = false) :
+    (lastWill auth b c).2 = deliver (lastWill auth b c).1 (g.contract :: (parseChannel c.willTopic).query) none
+                                  (.pub (parseChannel c.willTopic).channel c.willMessage) := by
+  unfold lastWill
+  dsimp only
+  rw [if_neg (by simp [h1, h2]), if_neg (by simp [h3])]
+  simp only [h4, h5, Bool.false_eq_true, if_false]
+
+theorem lastWill_bad (auth : Auth) (b : B) (c : Conn)
+    (hno : ¬ ∃ g, c.hasConnect = true ∧ c.willFlag = true ∧ (parseChannel c.willTopic).ctype = chStatic ∧
+        auth b.banned (parseChannel c.willTopic) permWrite = some g ∧ g.has permExtend = false) :
+    lastWill auth b c = (b, []) := by
+  unfold lastWill
+  dsimp only
+  split
+  · rfl
+  rename_i h12
+  split
+  · rfl
+  rename_i h3
+  split
+  · rfl
+  rename_i g h4
+  split
+  · rfl
+  rename_i h5
+  exfalso
+  apply hno
+  simp only [Bool.or_eq_true, Bool.not_eq_true', not_or, Bool.not_eq_false] at h12
+  refine ⟨g, h12.1, h12.2, by simpa using h3, h4, by simpa using h5⟩
 
 /-- C08: the last will is published exactly when one was supplied, its topic is a static
 channel and its key allows publishing there (and is not extendable) -/
@@ -151,13 +1044,13 @@ theorem will_fires_iff (auth : Auth) (b : B) (c : Conn) :
     ((¬ ∃ g, c.hasConnect = true ∧ c.willFlag = true ∧ (parseChannel c.willTopic).ctype = chStatic ∧
         auth b.banned (parseChannel c.willTopic) permWrite = some g ∧ g.has permExtend = false) ∧
       lastWill auth b c = (b, [])) := by
-  sorry
+  by_cases hex : ∃ g, c.hasConnect = true ∧ c.willFlag = true ∧ (parseChannel c.willTopic).ctype = chStatic ∧
+        auth b.banned (parseChannel c.willTopic) permWrite = some g ∧ g.has permExtend = false
+  · obtain ⟨g, h1, h2, h3, h4, h5⟩ := hex
+    exact Or.inl ⟨g, h1, h2, h3, h4, h5, lastWill_ok auth b c g h1 h2 h3 h4 h5⟩
+  · exact Or.inr ⟨hex, lastWill_bad auth b c hex⟩
 
 /-! ### C07: storing and replaying -/
-
-theorem ttlOf_pos_iff (retain : Bool) (ch : Channel) :
-    ttlOf retain ch > 0 ↔ retain = true ∨ ∃ t, ch.ttl = some t ∧ t > 0 := by
-  sorry
 
 /-- a publish is written to history iff it carries a positive ttl or the retain flag and its
 key has the store permission; once; under the publisher's contract and channel; with the
@@ -173,7 +1066,24 @@ theorem store_iff (auth : Auth) (b : B) (name : String) (c : Conn) (qos : UInt8)
       if ttl > 0 ∧ g.has permStore = true then
         b.store ++ [⟨g.contract :: ch.query, ch.channel, payload, if ttl = Generated.msgRetainedTTL then b.retain else ttl⟩]
       else b.store := by
-  sorry
+  have hi := static_ne_invalid hs
+  unfold resolve at hs hauth hi ⊢
+  simp only [step, hc]; rw [if_neg (by simp [ha])]
+  generalize (if topic.length ≤ 2 then ((c.links.find? (·.1 == topic)).map (·.2)).getD [] else topic) = t at hs hauth hi ⊢
+  rw [if_neg (by simpa using hi), if_neg (by simp [hs])]
+  simp only [hauth, hx, Bool.false_eq_true, if_false]
+  by_cases hcond : ttlOf retain (parseChannel t) > 0 ∧ g.has permStore = true
+  · rw [if_pos (by simpa using hcond), if_pos hcond]
+    simp [storeMsg]
+  · rw [if_neg (by simpa using hcond), if_neg hcond]
+
+theorem subscribeConn_out_json (b : B) (c : Conn) (ssid : Path) (channel : Bytes) (e : String × Pkt)
+    (he : e ∈ (subscribeConn b c ssid channel).2) : ∃ t f, e.2 = .json t f := by
+  rw [subscribeConn_out] at he
+  split at he
+  · cases he
+  · rw [notify_eq] at he
+    exact ⟨_, _, deliver_snd he⟩
 
 /-- an accepted subscription with the load permission is sent exactly the last N stored
 matching messages before its SUBACK (N from `last`, 1 by default, 0 for none); none without -/
@@ -189,40 +1099,59 @@ theorem replay_exact (auth : Auth) (b : B) (name : String) (c : Conn) (mid : UIn
     (r.2.filter (fun e => e.1 == name && (match e.2 with | .json _ _ => false | _ => true))) =
       (if g.has permLoad then (queryStore b ssid limit).map (fun m => (name, Pkt.pub m.channel m.payload)) else [])
         ++ [(name, .suback mid [qos])] := by
-  sorry
-
-theorem queryStore_spec (b : B) (ssid : Path) (limit : Nat) :
-    queryStore b ssid limit = ((b.store.filter (fun m => ssidMatches ssid m.ssid)).reverse.take limit).reverse := by
-  sorry
-
-/-! ### C18: presence -/
-
-/-- a first subscription emits exactly one 'subscribe' notification (to the watchers of the
-channel or of a parent), a repeated one none -/
-theorem subscribeConn_out (b : B) (c : Conn) (ssid : Path) (channel : Bytes) :
-    (subscribeConn b c ssid channel).2 =
-      if c.counters.any (·.ssid == ssid) then []
-      else notify (subscribeConn b c ssid channel).1 "subscribe"
-             { c with counters := c.counters ++ [⟨ssid, channel, 1⟩] } ssid channel := by
-  sorry
-
-/-- the end of a subscription emits exactly one 'unsubscribe' notification; unsubscribing
-something not held emits none -/
-theorem unsubscribeConn_out (b : B) (c : Conn) (ssid : Path) (channel : Bytes)
-    (h1 : ∀ ctr ∈ c.counters, ctr.count = 1) :
-    (unsubscribeConn b c ssid channel).2 =
-      if c.counters.any (·.ssid == ssid) then
-        notify (unsubscribeConn b c ssid channel).1 "unsubscribe"
-          { c with counters := c.counters.filter (·.ssid != ssid) } ssid channel
-      else [] := by
-  sorry
-
-/-- who receives a notification about `ssid`: exactly the live connections watching it
-(a presence subscription on the channel or on a parent channel) -/
-theorem notify_receivers (b : B) (h : Sync b) (event : String) (c : Conn) (ssid : Path) (channel : Bytes) (n : String) (p : Pkt) :
-    (n, p) ∈ notify b event c ssid channel ↔
-      (∃ f, p = .json (strBytes "emitter/presence/") f) ∧
-      ∃ w ∈ b.conns, w.name = n ∧ w.alive = true ∧ receives b.mode w (presenceSsid ssid) := by
-  sorry
-
+  dsimp only
+  rw [step_subscribe_eq auth b name c mid topic qos g hc ha hv hauth hx]
+  dsimp only
+  have hst := (subscribeConn_frame b c (g.contract :: (parseChannel (fixTopic topic)).query)
+    (parseChannel (fixTopic topic)).channel).1
+  refine ⟨hst, ?_⟩
+  have hq : ∀ l, queryStore (subscribeConn b c (g.contract :: (parseChannel (fixTopic topic)).query)
+      (parseChannel (fixTopic topic)).channel).1 (g.contract :: (parseChannel (fixTopic topic)).query) l =
+      queryStore b (g.contract :: (parseChannel (fixTopic topic)).query) l := by
+    intro l; unfold queryStore; rw [hst]
+  rw [hq, List.filter_append, List.filter_append]
+  have h1 : (subscribeConn b c (g.contract :: (parseChannel (fixTopic topic)).query)
+      (parseChannel (fixTopic topic)).channel).2.filter
+      (fun e => e.1 == name && (match e.2 with | .json _ _ => false | _ => true)) = [] := by
+    rw [List.filter_eq_nil_iff]
+    intro e he
+    obtain ⟨t, f, hj⟩ := subscribeConn_out_json _ _ _ _ e he
+    simp [hj]
+  rw [h1, List.nil_append]
+  congr 1
+  · rw [List.filter_eq_self]
+    intro e he
+    split at he
+    · obtain ⟨m, _, rfl⟩ := List.mem_map.1 he
+      simp
+    · cases he
+  · simp
+/-- Counterexample to the ORIGINAL statement of `notify_receivers` (with `∃ f` inside the
+equivalence): one live connection "w" watching the presence ssid of `[]`. The right-hand side
+then holds for the two different packets `json … "x"` and `json … "y"`, but `notify` sends
+every receiver the same packet. -/
+theorem notify_receivers_original_false :
+    ¬ ∀ (b : B) (_ : Sync b) (event : String) (c : Conn) (ssid : Path) (channel : Bytes) (n : String) (p : Pkt),
+      ((n, p) ∈ notify b event c ssid channel ↔
+        (∃ f, p = .json (strBytes "emitter/presence/") f) ∧
+        ∃ w ∈ b.conns, w.name = n ∧ w.alive = true ∧ receives b.mode w (presenceSsid ssid)) := by
+  intro hall
+  have h0 : Sync (accept {} "w" [1]) := sync_accept _ _ _ sync_init (by simp) (by simp)
+  have hw : ({ name := "w", guid := [1] } : Conn) ∈ (accept {} "w" [1]).conns := by simp [accept]
+  have h1 := sync_subscribeConn h0 hw rfl (presenceSsid []) []
+  have hconns : (subscribeConn (accept {} "w" [1]) { name := "w", guid := [1] } (presenceSsid []) []).1.conns =
+      [{ name := "w", guid := [1], counters := [⟨presenceSsid [], [], 1⟩] }] := by
+    simp [subscribeConn_eq, accept, B.setConn]
+  have hrhs : ∀ f, ("w", Pkt.json (strBytes "emitter/presence/") f) ∈
+      notify (subscribeConn (accept {} "w" [1]) { name := "w", guid := [1] } (presenceSsid []) []).1
+        "subscribe" { name := "c", guid := [2] } [] [] := by
+    intro f
+    refine (hall _ h1 "subscribe" { name := "c", guid := [2] } [] [] "w" _).2 ⟨⟨f, rfl⟩, ?_⟩
+    refine ⟨{ name := "w", guid := [1], counters := [⟨presenceSsid [], [], 1⟩] }, ?_, rfl, rfl, ?_⟩
+    · rw [hconns]; simp
+    · exact ⟨presenceSsid [], ⟨_, List.mem_singleton.2 rfl, rfl⟩, matches_self _ _⟩
+  have hx := deliver_snd (hrhs "x")
+  have hy := deliver_snd (hrhs "y")
+  rw [← hy] at hx
+  simp at hx
 end Emitter.Broker
